@@ -23,14 +23,22 @@ TECHNIQUE = 'reference dataflow evaluator + write-protection/digest purity monit
 RULE = ('graphs from vlib.scalegen.gen_graph; non-trivial = graph with >=2 scales or properties on a non-channel level; distinct = (scale '
         'kinds + wiring, raw type, level)')
 ASSUMPTIONS = ['int raw data is converted to float64 before Linear/Polynomial/Table evaluation (NumPy promotion)']
-REQUIRED = ['graphs', 'scaled_compared', 'windows_compared', 'lazy_compared', 'purity_checks', 'level:channel', 'level:group', 'level:root',
+REQUIRED = ['purity_cases', 'graphs', 'scaled_compared', 'windows_compared', 'lazy_compared', 'purity_checks', 'level:channel', 'level:group', 'level:root',
             'status_scaled_cases', 'daqmx_graphs', 'precedence_cases', 'no_count_property', 'parents:first', 'parents:last', 'parents:later']
 N = {'quick': 10000, 'thorough': 100000}
+
+
+SENSOR_KINDS = ['Linear', 'Linear-identity', 'Polynomial', 'Table', 'RTD', 'Thermistor', 'Thermocouple0', 'Thermocouple1', 'AdvancedAPI'] + \
+               ['Strain:%d' % c for c in (10183, 10184, 10185, 10188, 10189, 10271, 10272)]
 
 
 def gen_cases(tier, seed):
     for i in range(N[tier]):
         yield {'s': seed * 1000003 + i, 'fam': 'daqmx' if i % 10 == 9 else 'plain'}
+    for k in SENSOR_KINDS:
+        for t in ('f64', 'f32', 'i16', 'f64u'):
+            for rep in range(2 if tier == 'quick' else 20):
+                yield {'fam': 'purity', 'kind': k, 't': t, 's': seed * 1000003 + rep}
 
 
 def shard_setup(ctx):
@@ -97,9 +105,70 @@ def close_enough(got, want, scales, raw, memo=None):
     return bool(ok.all()) and got.dtype == want.dtype
 
 
+def purity_case(case, ctx):
+    """Every scale type (also the sensor scalings): scaling never modifies the raw data, repeated reads agree."""
+    from nptdms import TdmsFile
+    from checks.c14 import scale_for
+    rng = random.Random('c13p/%s/%s/%d' % (case['kind'], case['t'], case['s']))
+    kind = case['kind']
+    if kind.startswith('Strain:'):
+        sc = [dict(kind='Strain', config=int(kind[7:]), poisson=0.3, gage_r=350.0, lead=rng.choice([0.0, 1.5]), v_init=rng.choice([0.0, 1e-4, -1e-4]),
+                   gf=2.1, gain=rng.choice([1.0, 1.1]), v_ex=2.5, src=SG.RAW)]
+    else:
+        sc = scale_for(kind)
+    t = case['t']
+    dt = M.TYPES[t][1]
+    n = 6
+
+    def vf(p, tt, k):
+        return np.array([rng.choice([1, 2, 3]) * (0.01 if dt[0] == 'f' else 1) for _ in range(k)]).astype(dt)
+    segs = M.build_file(rng, [('g', 'c', t, n, SG.graph_props(sc))], nseg=2, nchunks=(1, 2), values_fn=vf, continuation='same')
+    blob = M.encode_file(segs)[0]
+    raw = M.Expected(segs).flat("/'g'/'c'")
+    ctx.evaluation()
+    ctx.count('purity_cases')
+    ctx.distinct(('purity', kind, t))
+    info = {'scale': sc, 'raw_type': t}
+    ctx.purity['bad'] = []
+    try:
+        with np.errstate(all='ignore'):
+            tf = TdmsFile.read(io.BytesIO(blob))
+            ch = tf['g']['c']
+            before = ch.raw_data.tobytes()
+            a = ch.read_data(0, 4)
+            b = ch[:]
+            c = ch.read_data()
+            d = ch.read_data(2, 3)
+            if ch.raw_data.tobytes() != before or not C.img_equal(C.image(ch.raw_data), C.expected_image(t, raw)):
+                ctx.violation('raw-data-modified-by-scaling/eager/%s' % kind.split(':')[0], info)
+            if not (C.img_equal(C.image(a), C.image(b[:4])) and C.img_equal(C.image(b), C.image(c)) and C.img_equal(C.image(d), C.image(b[2:5]))):
+                ctx.violation('repeated-scaled-reads-disagree/eager/%s' % kind.split(':')[0],
+                              dict(info, first_window=C.short(C.image(a)), full=C.short(C.image(b)), again=C.short(C.image(c))))
+            with TdmsFile.open(io.BytesIO(blob)) as lf:
+                lch = lf['g']['c']
+                parts = [x[:] for x in lch.data_chunks()]
+                parts2 = [x[:] for x in lch.data_chunks()]
+                e = lch[:]
+                if not C.img_equal(C.image(e), C.image(b)) or not C.img_equal(C.image(np.concatenate(parts)), C.image(b)) or \
+                        not C.img_equal(C.image(np.concatenate(parts2)), C.image(b)):
+                    ctx.violation('repeated-scaled-reads-disagree/lazy/%s' % kind.split(':')[0], info)
+                # the same chunk object scaled twice
+                for x in lch.data_chunks():
+                    if not C.img_equal(C.image(x[:]), C.image(x[:])):
+                        ctx.violation('chunk-scaled-twice-differs/%s' % kind.split(':')[0], info)
+                    break
+    except Exception as ex:
+        if not ctx.purity['bad']:
+            ctx.violation('purity/raises/%s/%s' % (util.exc_key(ex), kind.split(':')[0]), dict(info, exc=util.exc_detail(ex)))
+    for what, det in ctx.purity['bad']:
+        ctx.violation('raw-data-modified-by-scaling/%s/%s' % (what, kind.split(':')[0]), dict(info, detail=det))
+
+
 def run_case(case, ctx):
     if case['fam'] == 'daqmx':
         return daqmx_case(case, ctx)
+    if case['fam'] == 'purity':
+        return purity_case(case, ctx)
     from nptdms import TdmsFile
     rng = random.Random('c13/%d' % case['s'])
     t = rng.choice(M.NUMERIC_REAL + ['f32u', 'f64u'])
